@@ -536,7 +536,7 @@ def run_session(cfg: Dict[str, Any]) -> Dict[str, Any]:
             for t in tables:
                 t.observe_stuck()
         sched.on_stuck = observe
-        verdict = sched.run(timeout=cfg.get('timeout', 120.0))
+        verdict = sched.run(timeout=cfg.get('timeout', 600.0))   # real seconds; generous: the machine may be busy
     _random.setstate(py_state)
     result = tables[0].collect(verdict)
     if len(tables) > 1:
